@@ -33,6 +33,10 @@ struct Scn {
   size_t cap;
   int nstep;
   long fresh_every; // every fresh_every-th point (and narena 0) uses a freshly allocated mjData of exactly narena bytes
+  // staged sweep (empty = plain sweep: the point is narena)
+  struct Stage { long tick, base, n, off; size_t p, q, hidden; };   // point off+i  <->  (tick, narena = base + i*stride)
+  std::vector<Stage> stages;
+  long stride = 1;
 };
 
 // The arena buffer is [arena, arena+narena): arena allocations grow up from arena+parena, the stack grows down from
@@ -61,6 +65,46 @@ static void unguard(mjData* d, size_t cap) {
 #endif
 }
 
+// ---- second fault dimension: the stage boundary at which the memory runs out.
+// A transient stack peak of an early stage (collision scratch, Jacobian scratch of the instantiate functions, ...)
+// hides the failure window of every later allocation whose own need is smaller: with one fixed narena that later
+// allocation can only fail at sizes at which the step never gets that far.  MuJoCo calls the user timer callback
+// mjcb_time at its stage boundaries (TM_START / TM_RESTART / TM_END in mj_step, mj_forward, mj_fwdPosition,
+// mj_collision, ...); at those calls that happen with an empty stack (pstack = pbase = 0) the arena is
+// [0, parena) = finished arrays, so the end of the arena can be moved to any s >= parena without touching anything
+// that is in use.  A staged fault point (k, s) runs mj_step with ample memory up to the k-th timer call of the step and
+// with narena = s from there on (and for the following steps).  The state at the boundary is exactly the state of a
+// run with narena = s in which the earlier stages fitted; later stages must handle their own failed allocations
+// whatever the earlier stages needed.
+static const long kStagedBase = 1L << 40;   // point ids of staged fault points start here
+struct Tick { int usable; size_t parena, peak; };   // peak = max(stack + parena) between this call and the next one
+static mjData* g_tick_d = nullptr;      // data the callback acts on (the callback has no argument)
+static int g_tick_mode = 0;             // 0 idle, 1 record, 2 shrink at call number g_tick_target
+static long g_tick_count = 0, g_tick_target = -1;
+static size_t g_tick_size = 0, g_tick_cap = 0;
+static int g_tick_fired = 0;
+static std::vector<Tick> g_ticks;
+static mjtNum tick_cb(void) {
+  mjData* d = g_tick_d;
+  if (!d || !g_tick_mode) return 0;
+  if (g_tick_mode == 1) {
+    if (!g_ticks.empty()) g_ticks.back().peak = d->maxuse_arena;
+    g_ticks.push_back(Tick{d->pstack == 0 && d->pbase == 0, d->parena, 0});
+    d->maxuse_arena = 0;   // statistics field, written only by the allocators
+  } else if (g_tick_mode == 2) {
+    if (g_tick_count == g_tick_target) {
+      if (d->pstack == 0 && d->pbase == 0 && d->parena <= g_tick_size && g_tick_size <= g_tick_cap) {
+        d->narena = g_tick_size;
+        guard_tail(d, g_tick_cap);
+        g_tick_fired = 1;
+      }
+      g_tick_mode = 0;
+    }
+  }
+  g_tick_count++;
+  return 0;
+}
+
 static volatile unsigned char g_sink;
 
 // read every byte of [p, p+n): under ASan this reports arrays that were never allocated on the arena
@@ -76,27 +120,27 @@ static int check_arena(const mjModel* m, const mjData* d, long pt, int step, Vgx
   int bad = 0;
   uintptr_t a0 = (uintptr_t)d->arena;
   if (d->pstack != 0 || d->pbase != 0) {
-    out.violation(pt, "stack not balanced after mj_step", "narena=%ld step %d: pstack=%zu pbase=%zu", pt, step,
+    out.violation(pt, "stack not balanced after mj_step", "narena=%ld step %d: pstack=%zu pbase=%zu", (long)d->narena, step,
                   (size_t)d->pstack, (size_t)d->pbase);
     bad = 1;
   }
   if (d->parena > d->narena) {
-    out.violation(pt, "parena > narena", "narena=%ld step %d: parena=%zu", pt, step, (size_t)d->parena);
+    out.violation(pt, "parena > narena", "narena=%ld step %d: parena=%zu", (long)d->narena, step, (size_t)d->parena);
     return 1;
   }
   if (d->ncon < 0 || d->nefc < 0 || d->nisland < 0 || d->ne < 0 || d->nf < 0 || d->nl < 0) {
-    out.violation(pt, "negative size", "narena=%ld step %d ncon=%d nefc=%d nisland=%d", pt, step, d->ncon, d->nefc,
+    out.violation(pt, "negative size", "narena=%ld step %d ncon=%d nefc=%d nisland=%d", (long)d->narena, step, d->ncon, d->nefc,
                   d->nisland);
     return 1;
   }
   if ((size_t)d->ncon * sizeof(mjContact) > d->parena || (d->ncon && (void*)d->contact != d->arena)) {
-    out.violation(pt, "contact array not inside the allocated arena", "narena=%ld step %d: ncon=%d parena=%zu", pt,
+    out.violation(pt, "contact array not inside the allocated arena", "narena=%ld step %d: ncon=%d parena=%zu", (long)d->narena,
                   step, d->ncon, (size_t)d->parena);
     return 1;
   }
   if (d->ne + d->nf + d->nl > d->nefc) {
     out.violation(pt, "ne+nf+nl > nefc after truncation",
-                  "narena=%ld step %d: ne=%d nf=%d nl=%d but nefc=%d (sizes describe rows that do not exist)", pt, step,
+                  "narena=%ld step %d: ne=%d nf=%d nl=%d but nefc=%d (sizes describe rows that do not exist)", (long)d->narena, step,
                   d->ne, d->nf, d->nl, d->nefc);
     bad = 1;
   }
@@ -112,7 +156,7 @@ static int check_arena(const mjModel* m, const mjData* d, long pt, int step, Vgx
       uintptr_t p = (uintptr_t)d->name;                                                                         \
       if (p < a0 || p + bytes > a0 + d->parena) {                                                               \
         out.violation(pt, "arena array outside allocated arena: " #name, "narena=%ld step %d: %s offset %ld bytes %zu parena %zu", \
-                      pt, step, #name, (long)(p - a0), bytes, (size_t)d->parena);                               \
+                      (long)d->narena, step, #name, (long)(p - a0), bytes, (size_t)d->parena);                               \
         bad = 1;                                                                                                \
       } else {                                                                                                  \
         touch(d->name, bytes);                                                                                  \
@@ -125,7 +169,7 @@ static int check_arena(const mjModel* m, const mjData* d, long pt, int step, Vgx
   if (d->nefc > 0) {
 #define X(type, name, nr, nc)                                                                          \
     if (!d->name && (size_t)(nr) * (size_t)(nc) > 0) { \
-      out.violation(pt, "nefc>0 but solver array is NULL: " #name, "narena=%ld step %d nefc=%d", pt, step, d->nefc); \
+      out.violation(pt, "nefc>0 but solver array is NULL: " #name, "narena=%ld step %d nefc=%d", (long)d->narena, step, d->nefc); \
       bad = 1;                                                                                         \
     }
     MJDATA_ARENA_POINTERS_SOLVER
@@ -134,7 +178,7 @@ static int check_arena(const mjModel* m, const mjData* d, long pt, int step, Vgx
   if (d->nisland > 0) {
 #define X(type, name, nr, nc)                                                                          \
     if (!d->name && (size_t)(nr) * (size_t)(nc) > 0) {                                                 \
-      out.violation(pt, "nisland>0 but island array is NULL: " #name, "narena=%ld step %d nisland=%d", pt, step, d->nisland); \
+      out.violation(pt, "nisland>0 but island array is NULL: " #name, "narena=%ld step %d nisland=%d", (long)d->narena, step, d->nisland); \
       bad = 1;                                                                                         \
     }
     MJDATA_ARENA_POINTERS_ISLAND
@@ -149,13 +193,13 @@ static int check_arena(const mjModel* m, const mjData* d, long pt, int step, Vgx
   for (int i = 0; i < d->ncon; i++) {
     const mjContact* c = d->contact + i;
     if (c->efc_address < -1 || c->efc_address >= d->nefc) {
-      out.violation(pt, "contact.efc_address out of range", "narena=%ld step %d contact %d efc_address=%d nefc=%d", pt,
+      out.violation(pt, "contact.efc_address out of range", "narena=%ld step %d contact %d efc_address=%d nefc=%d", (long)d->narena,
                     step, i, c->efc_address, d->nefc);
       return 1;
     }
     if (!(c->dim == 1 || c->dim == 3 || c->dim == 4 || c->dim == 6) || c->geom[0] < -1 || c->geom[0] >= m->ngeom ||
         c->geom[1] < -1 || c->geom[1] >= m->ngeom) {
-      out.violation(pt, "contact has invalid dim/geom", "narena=%ld step %d contact %d dim=%d geom=%d,%d", pt, step, i,
+      out.violation(pt, "contact has invalid dim/geom", "narena=%ld step %d contact %d dim=%d geom=%d,%d", (long)d->narena, step, i,
                     c->dim, c->geom[0], c->geom[1]);
       return 1;
     }
@@ -163,13 +207,13 @@ static int check_arena(const mjModel* m, const mjData* d, long pt, int step, Vgx
   for (int i = 0; i < d->nefc; i++) {
     int t = d->efc_type[i];
     if (t < 0 || t > mjCNSTR_CONTACT_ELLIPTIC) {
-      out.violation(pt, "efc_type invalid", "narena=%ld step %d row %d type %d", pt, step, i, t);
+      out.violation(pt, "efc_type invalid", "narena=%ld step %d row %d type %d", (long)d->narena, step, i, t);
       return 1;
     }
     if (mj_isSparse(m)) {
       int nnz = d->efc_J_rownnz[i], adr = d->efc_J_rowadr[i];
       if (nnz < 0 || adr < 0 || adr + nnz > d->nJ) {
-        out.violation(pt, "efc_J row outside nJ", "narena=%ld step %d row %d adr %d nnz %d nJ %d", pt, step, i, adr, nnz,
+        out.violation(pt, "efc_J row outside nJ", "narena=%ld step %d row %d adr %d nnz %d nJ %d", (long)d->narena, step, i, adr, nnz,
                       d->nJ);
         return 1;
       }
@@ -177,7 +221,7 @@ static int check_arena(const mjModel* m, const mjData* d, long pt, int step, Vgx
     if (d->nisland > 0) {
       int is = d->efc_island[i];
       if (is < -1 || is >= d->nisland) {
-        out.violation(pt, "efc_island out of range", "narena=%ld step %d row %d island %d nisland %d", pt, step, i, is,
+        out.violation(pt, "efc_island out of range", "narena=%ld step %d row %d island %d nisland %d", (long)d->narena, step, i, is,
                       d->nisland);
         return 1;
       }
@@ -189,14 +233,14 @@ static int check_arena(const mjModel* m, const mjData* d, long pt, int step, Vgx
       if (d->island_nv[i] <= 0 || d->island_idofadr[i] != sumnv || d->island_iefcadr[i] != sumnefc ||
           d->island_nefc[i] <= 0) {
         out.violation(pt, "island bookkeeping inconsistent", "narena=%ld step %d island %d nv %d idofadr %d nefc %d iefcadr %d",
-                      pt, step, i, d->island_nv[i], d->island_idofadr[i], d->island_nefc[i], d->island_iefcadr[i]);
+                      (long)d->narena, step, i, d->island_nv[i], d->island_idofadr[i], d->island_nefc[i], d->island_iefcadr[i]);
         return 1;
       }
       sumnv += d->island_nv[i];
       sumnefc += d->island_nefc[i];
     }
     if (sumnv != d->nidof || sumnefc != d->nefc) {
-      out.violation(pt, "island sizes do not add up", "narena=%ld step %d sum nv %ld nidof %d sum nefc %ld nefc %d", pt,
+      out.violation(pt, "island sizes do not add up", "narena=%ld step %d sum nv %ld nidof %d sum nefc %ld nefc %d", (long)d->narena,
                     step, sumnv, d->nidof, sumnefc, d->nefc);
       return 1;
     }
@@ -300,45 +344,57 @@ static bool legit_error(const char* msg) {
          strstr(msg, "arena too small to allocate geom pair") || strstr(msg, "arena overflow in implicit effective metric");
 }
 
-static std::string run_point(long narena, VgxOut& out, Scn* s, bool fresh, bool report, bool* nontriv_out);
+static std::string run_point(long pt, long narena, long tick, VgxOut& out, Scn* s, bool fresh, bool report, bool* nontriv_out);
 
-static void point(long narena, VgxOut& out, void* user) {
+static void point(long pt, VgxOut& out, void* user) {
   Scn* s = (Scn*)user;
+  // plain sweep: the point is narena, memory is short from the start.  staged sweep: point -> (timer call, narena)
+  long narena = pt, tick = -1;
+  if (pt >= kStagedBase) {
+    const Scn::Stage* st = nullptr;
+    long idx = pt - kStagedBase;
+    for (const Scn::Stage& c : s->stages) if (idx >= c.off && idx < c.off + c.n) st = &c;
+    if (!st) { out.violation(pt, "harness: staged point outside the table", "point %ld", idx); return; }
+    narena = st->base + (idx - st->off) * s->stride;
+    tick = st->tick;
+  }
   bool nontriv = false;
   std::string cls;
   g_armed = 1;
   if (sigsetjmp(g_env, 1) == 0) {
-    cls = run_point(narena, out, s, narena == 0, true, &nontriv);
+    cls = run_point(pt, narena, tick, out, s, tick < 0 && narena == 0, true, &nontriv);
     g_armed = 0;
   } else {
     // a signal was raised inside the engine: report, re-initialise the work data
+    g_tick_mode = 0;
     std::string key = std::string("signal inside mj_step: ") + g_sigdesc;
     size_t a = key.find(" addr ");
     size_t b = key.find(" at ");
     std::string k2 = (a != std::string::npos && b != std::string::npos) ? key.substr(0, a) + key.substr(b) : key;
     k2 += (s->dwork->ne + s->dwork->nf + s->dwork->nl > s->dwork->nefc) ? " [ne+nf+nl>nefc]" : "";
-    out.violation(narena, k2.c_str(), "narena=%ld: %s; ne=%d nf=%d nl=%d nefc=%d ncon=%d", narena, g_sigdesc, s->dwork->ne,
-                  s->dwork->nf, s->dwork->nl, s->dwork->nefc, s->dwork->ncon);
-    out.outcome(narena, "SIGNAL " + k2, true);
+    out.violation(pt, k2.c_str(), "narena=%ld%s: %s; ne=%d nf=%d nl=%d nefc=%d ncon=%d", narena,
+                  tick >= 0 ? (" from timer call " + std::to_string(tick) + " of the first step on").c_str() : "", g_sigdesc,
+                  s->dwork->ne, s->dwork->nf, s->dwork->nl, s->dwork->nefc, s->dwork->ncon);
+    out.outcome(pt, (tick >= 0 ? "@SIGNAL " : "SIGNAL ") + k2, true);
     unguard(s->dwork, s->cap);
     s->dwork->narena = s->cap;
     s->dwork->pstack = s->dwork->pbase = 0;
     mj_resetData(s->mbig, s->dwork);
     return;
   }
-  if (narena != 0 && s->fresh_every > 0 && narena % s->fresh_every == 0) {
+  if (tick < 0 && narena != 0 && s->fresh_every > 0 && narena % s->fresh_every == 0) {
     bool nt2 = false;
-    std::string cls2 = run_point(narena, out, s, true, false, &nt2);
+    std::string cls2 = run_point(pt, narena, -1, out, s, true, false, &nt2);
     if (cls2 != cls) {
-      out.violation(narena, "harness: in-place shrink and fresh mjData disagree", "narena=%ld in-place '%s' fresh '%s'",
+      out.violation(pt, "harness: in-place shrink and fresh mjData disagree", "narena=%ld in-place '%s' fresh '%s'",
                     narena, cls.c_str(), cls2.c_str());
     }
-    out.outcome(narena, "(fresh-mjData cross-check)", false);
+    out.outcome(pt, "(fresh-mjData cross-check)", false);
   }
-  out.outcome(narena, cls, nontriv);
+  out.outcome(pt, tick >= 0 ? "@" + cls : cls, nontriv);
 }
 
-static std::string run_point(long narena, VgxOut& out, Scn* s, bool fresh, bool report, bool* nontriv_out) {
+static std::string run_point(long pt, long narena, long tick, VgxOut& out, Scn* s, bool fresh, bool report, bool* nontriv_out) {
   mjModel* m = s->msmall;
   mjData* d = nullptr;
   if (fresh) {
@@ -346,7 +402,7 @@ static std::string run_point(long narena, VgxOut& out, Scn* s, bool fresh, bool 
     try {
       d = mj_makeData(m);
     } catch (VgError& e) {
-      if (!legit_error(e.msg)) out.violation(narena, (std::string("unexpected error in mj_makeData: ") + vgx_msgclass(e.msg)).c_str(), "%s", e.msg);
+      if (!legit_error(e.msg)) out.violation(pt, (std::string("unexpected error in mj_makeData: ") + vgx_msgclass(e.msg)).c_str(), "%s", e.msg);
       *nontriv_out = true;
       return std::string("makeData error: ") + vgx_msgclass(e.msg);
     }
@@ -355,7 +411,7 @@ static std::string run_point(long narena, VgxOut& out, Scn* s, bool fresh, bool 
     m = s->mbig;
     d = s->dwork;
     unguard(d, s->cap);
-    d->narena = (size_t)narena;
+    d->narena = tick >= 0 ? s->cap : (size_t)narena;   // staged: ample until timer call `tick` of the first step
     mj_resetData(m, d);
     guard_tail(d, s->cap);
   }
@@ -363,20 +419,30 @@ static std::string run_point(long narena, VgxOut& out, Scn* s, bool fresh, bool 
   bool nontriv = false;
   for (int step = 0; step < s->nstep; step++) {
     // reference: same integration state, ample memory
-    const RefEntry* dref = reference(s, d, narena, out);
+    const RefEntry* dref = reference(s, d, pt, out);
     if (!dref) break;
     int w0c = d->warning[mjWARN_CONTACTFULL].number, w0e = d->warning[mjWARN_CNSTRFULL].number;
     bool err = false;
+    if (tick >= 0 && step == 0) {
+      g_tick_d = d; g_tick_count = 0; g_tick_target = tick; g_tick_size = (size_t)narena; g_tick_cap = s->cap;
+      g_tick_fired = 0; g_tick_mode = 2;
+    }
     try {
       mj_step(m, d);
+      g_tick_mode = 0;
     } catch (VgError& e) {
+      g_tick_mode = 0;
       err = true;
       std::string mc = vgx_msgclass(e.msg);
       if (!legit_error(e.msg)) {
-        out.violation(narena, ("unexpected mju_error under arena exhaustion: " + mc).c_str(), "narena=%ld step %d: %s", narena, step, e.msg);
+        out.violation(pt, ("unexpected mju_error under arena exhaustion: " + mc).c_str(), "narena=%ld step %d: %s", narena, step, e.msg);
       }
       cls += "E[" + mc.substr(0, 60) + "]";
       nontriv = true;
+    }
+    if (tick >= 0 && step == 0 && !g_tick_fired) {
+      out.violation(pt, "harness: staged fault point did not fire", "timer call %ld narena %ld: parena/stack at the call differ from the recorded run", tick, narena);
+      break;
     }
     if (err) {
       // a caught error leaves the stack marked; recovery is a reset.  A further step must not crash.
@@ -384,35 +450,35 @@ static std::string run_point(long narena, VgxOut& out, Scn* s, bool fresh, bool 
       try {
         mj_resetData(m, d);
         mj_step(m, d);
-        if (check_arena(m, d, narena, 100 + step, out)) {}
+        if (check_arena(m, d, pt, 100 + step, out)) {}
       } catch (VgError& e) {
         if (!legit_error(e.msg)) {
-          out.violation(narena, ("unexpected mju_error after reset: " + vgx_msgclass(e.msg)).c_str(), "narena=%ld: %s", narena, e.msg);
+          out.violation(pt, ("unexpected mju_error after reset: " + vgx_msgclass(e.msg)).c_str(), "narena=%ld: %s", narena, e.msg);
         }
         try { mj_resetData(m, d); } catch (VgError&) {}
       }
       break;
     }
     int dwc = d->warning[mjWARN_CONTACTFULL].number - w0c, dwe = d->warning[mjWARN_CNSTRFULL].number - w0e;
-    if (check_arena(m, d, narena, step, out)) { cls += "X"; break; }
+    if (check_arena(m, d, pt, step, out)) { cls += "X"; break; }
     bool same = d->ncon == dref->ncon && d->nefc == dref->nefc && d->nisland == dref->nisland;
     if (d->ncon < dref->ncon && !dwc) {
-      out.violation(narena, "contacts dropped without CONTACTFULL warning",
+      out.violation(pt, "contacts dropped without CONTACTFULL warning",
                     "narena=%ld step %d: ncon %d (ample %d), CONTACTFULL +%d CNSTRFULL +%d", narena, step, d->ncon,
                     dref->ncon, dwc, dwe);
     }
     if (d->ncon == dref->ncon && (d->nefc != dref->nefc || d->nisland != dref->nisland) && !dwe) {
-      out.violation(narena, "constraints/islands dropped without CNSTRFULL warning",
+      out.violation(pt, "constraints/islands dropped without CNSTRFULL warning",
                     "narena=%ld step %d: nefc %d (ample %d) nisland %d (ample %d), CONTACTFULL +%d CNSTRFULL +%d", narena,
                     step, d->nefc, dref->nefc, d->nisland, dref->nisland, dwc, dwe);
     }
     if (!same && !dwc && !dwe) {
-      out.violation(narena, "constraint set truncated without CONTACTFULL/CNSTRFULL warning",
+      out.violation(pt, "constraint set truncated without CONTACTFULL/CNSTRFULL warning",
                     "narena=%ld step %d: ncon %d (ample %d) nefc %d (ample %d) nisland %d (ample %d), no warning", narena,
                     step, d->ncon, dref->ncon, d->nefc, dref->nefc, d->nisland, dref->nisland);
     }
     if (d->ncon > dref->ncon || d->nefc > dref->nefc) {
-      out.violation(narena, "more contacts/constraints than with ample memory", "narena=%ld step %d ncon %d/%d nefc %d/%d",
+      out.violation(pt, "more contacts/constraints than with ample memory", "narena=%ld step %d ncon %d/%d nefc %d/%d",
                     narena, step, d->ncon, dref->ncon, d->nefc, dref->nefc);
     }
     // truncated contact list must be a sub-list of the ample one
@@ -427,14 +493,14 @@ static std::string run_point(long narena, VgxOut& out, Scn* s, bool fresh, bool 
         j++;
       }
       if (!okc) {
-        out.violation(narena, "truncated contact list is not a sub-list of the full one", "narena=%ld step %d ncon %d/%d",
+        out.violation(pt, "truncated contact list is not a sub-list of the full one", "narena=%ld step %d ncon %d/%d",
                       narena, step, d->ncon, dref->ncon);
       }
     }
     if (!dwc && !dwe) {
       // untruncated: result must be bit-identical to the ample run
       if (memcmp(d->qpos, dref->qpos.data(), sizeof(mjtNum) * m->nq) || memcmp(d->qvel, dref->qvel.data(), sizeof(mjtNum) * m->nv)) {
-        out.violation(narena, "no warning but state differs from ample-memory run", "narena=%ld step %d", narena, step);
+        out.violation(pt, "no warning but state differs from ample-memory run", "narena=%ld step %d", narena, step);
       }
       cls += "ok";
     } else {
@@ -446,31 +512,77 @@ static std::string run_point(long narena, VgxOut& out, Scn* s, bool fresh, bool 
     }
     cls += step + 1 < s->nstep ? "," : "";
     for (int i = 0; i < m->nq; i++) {
-      if (d->qpos[i] != d->qpos[i]) { out.violation(narena, "NaN in qpos after truncated step", "narena=%ld step %d", narena, step); break; }
+      if (d->qpos[i] != d->qpos[i]) { out.violation(pt, "NaN in qpos after truncated step", "narena=%ld step %d", narena, step); break; }
     }
   }
   // a further step must not crash
   if (cls.find('E') == std::string::npos && cls.find('X') == std::string::npos) {
     try {
       mj_step(m, d);
-      check_arena(m, d, narena, 99, out);
+      check_arena(m, d, pt, 99, out);
     } catch (VgError& e) {
-      if (!legit_error(e.msg)) out.violation(narena, ("unexpected mju_error in further step: " + vgx_msgclass(e.msg)).c_str(), "narena=%ld: %s", narena, e.msg);
+      if (!legit_error(e.msg)) out.violation(pt, ("unexpected mju_error in further step: " + vgx_msgclass(e.msg)).c_str(), "narena=%ld: %s", narena, e.msg);
       try { mj_resetData(m, d); } catch (VgError&) {}
       cls += "+E";
     }
   }
   if (fresh) {
     try { mj_deleteData(d); } catch (VgError& e) {
-      out.violation(narena, "mj_deleteData raised", "narena=%ld: %s", narena, e.msg);
+      out.violation(pt, "mj_deleteData raised", "narena=%ld: %s", narena, e.msg);
     }
   } else {
     long bad = check_tail(d, s->cap);
-    if (bad >= 0) out.violation(narena, "write beyond the end of the arena", "narena=%ld: byte at offset %ld modified", narena, bad);
+    if (bad >= 0) out.violation(pt, "write beyond the end of the arena", "narena=%ld: byte at offset %ld modified", narena, bad);
     if (d->pstack || d->pbase) { try { mj_resetData(m, d); } catch (VgError&) {} }
   }
   *nontriv_out = nontriv;
   return cls;
+}
+
+// record the timer calls of the first step (ample memory) and build the staged fault table: one entry per timer call k
+// that happens with an empty stack.  q_k = peak of stack + arena from call k up to the next empty-stack call, M_k = peak of
+// everything before call k.  For s >= M_k the earlier stages fit, so (k, s) is the plain run with narena = s; the sizes
+// that only the staged run reaches are parena_k <= s < M_k (the window hidden behind the earlier transient peak), of
+// which those below q_k make the segment fail.  Entry k: s in [parena_k, min(q_k, M_k) + kStagePad); no entry if
+// M_k <= parena_k (nothing hidden) or q_k <= parena_k (the segment uses no memory).  The pad covers the dependence of
+// stack alignment padding on narena mod 8.
+static const long kStagePad = 64;
+static std::vector<Scn::Stage> stage_table(const mjModel* m, mjData* d, long stride, long* total, long* ncalls) {
+  std::vector<Scn::Stage> tab;
+  mjcb_time = tick_cb;
+  g_tick_d = d;
+  mj_resetData(m, d);
+  g_ticks.clear();
+  d->maxuse_arena = 0;
+  g_tick_mode = 1;
+  try { mj_step(m, d); } catch (VgError&) {}
+  g_tick_mode = 0;
+  if (!g_ticks.empty()) g_ticks.back().peak = d->maxuse_arena;
+  long off = 0;
+  size_t before = 0;   // M_k
+  for (size_t k = 0; k < g_ticks.size(); k++) {
+    const Tick& t = g_ticks[k];
+    if (t.usable) {
+      size_t q = t.peak;
+      for (size_t j = k + 1; j < g_ticks.size() && !g_ticks[j].usable; j++) if (g_ticks[j].peak > q) q = g_ticks[j].peak;
+      if (q > t.parena && before > t.parena) {
+        Scn::Stage st;
+        st.tick = (long)k;
+        st.p = t.parena; st.q = q; st.hidden = before;
+        st.base = ((long)t.parena + stride - 1) / stride * stride;
+        long top = (long)(q < before ? q : before) + kStagePad;
+        st.n = top > st.base ? (top - st.base + stride - 1) / stride : 0;
+        st.off = off;
+        off += st.n;
+        tab.push_back(st);
+      }
+    }
+    if (t.peak > before) before = t.peak;
+  }
+  *total = off;
+  *ncalls = (long)g_ticks.size();
+  mj_resetData(m, d);
+  return tab;
 }
 
 int main(int argc, char** argv) {
@@ -506,15 +618,26 @@ int main(int argc, char** argv) {
     }
     if (!d) { fprintf(stderr, "measure failed\n"); return 2; }
     mx = d->maxuse_arena;
-    printf("M %zu %d %d %d %zu %lld %d\n", mx, ncon, nefc, nisl, sizeof(mjContact), (long long)m->narena,
-           d->warning[mjWARN_CONTACTFULL].number + d->warning[mjWARN_CNSTRFULL].number);
+    int nwarn = d->warning[mjWARN_CONTACTFULL].number + d->warning[mjWARN_CNSTRFULL].number;
+    long stotal = 0, ncalls = 0;
+    std::vector<Scn::Stage> tab = stage_table(m, d, 1, &stotal, &ncalls);   // staged fault points at stride 1 (bytes)
+    printf("M %zu %d %d %d %zu %lld %d %ld %zu %ld\n", mx, ncon, nefc, nisl, sizeof(mjContact), (long long)m->narena, nwarn,
+           stotal, tab.size(), ncalls);
     return 0;
   }
   // explicit range:  <xml> <lo> <hi> <stride> <batch> [nstep fresh_every crash_stride]
   // automatic range: <xml> auto <shard> <nshards> <stride> [nstep fresh_every crash_stride]
   //   measures N = maxuse_arena, grows top = N + pad until the last 64 sizes are fault-free, sweeps shard/nshards of [0, top)
-  bool autom = !strcmp(argv[2], "auto");
+  // staged sweep:    <xml> stages <shard> <nshards> <stride> [nstep fresh_every crash_stride]
+  //   memory is ample up to a timer call of the first step and narena from there on; the fault points are
+  //   (call k, every size parena_k .. min(peak_k, peak of everything before k) + 64) for every call k with an empty stack
+  //   (see stage_table; printed as "I G <call> <first point> <first size> <count> <parena> <peak> <peak before>")
+  // one staged point:  <xml> stagept <call> <narena> 1 [nstep]
+  // both sweeps:     <xml> both <shard> <nshards> <stride> [...]   (automatic range, then the staged points, one process)
+  bool staged = !strcmp(argv[2], "stages"), stagept = !strcmp(argv[2], "stagept"), both = !strcmp(argv[2], "both");
+  bool autom = !strcmp(argv[2], "auto") || staged || stagept || both;
   long lo = 0, hi = 0, stride = atol(argv[autom ? 5 : 4]), batch = autom ? 1024 : atol(argv[5]);
+  if (stride < 1) stride = 1;
   size_t N = 0;
   if (autom) {
     mjModel* mm = mj_copyModel(nullptr, m);
@@ -552,7 +675,7 @@ int main(int argc, char** argv) {
   s.fresh_every = argc > 7 ? atol(argv[7]) : 251;
   vgx_crash_stride = argc > 8 ? atol(argv[8]) : 1;
   install_signals();
-  if (autom) {
+  if (autom && !staged && !stagept) {
     long top = (long)N + 256;
     std::string want;
     for (int i = 0; i < nstep; i++) want += i ? ",ok" : "ok";
@@ -592,5 +715,28 @@ int main(int argc, char** argv) {
     if (hi > top) hi = top;
     printf("T %zu %ld %ld %ld\n", N, top, lo, hi);
   }
-  return vgx_run(lo, hi, stride, batch, point, &s);
+  int rc = 0;
+  if (!staged && !stagept) rc = vgx_run(lo, hi, stride, batch, point, &s);
+  if (both || staged || stagept) {
+    // staged fault points: same shard number of the staged table; point ids kStagedBase + index, classes prefixed '@'
+    long total = 0, ncalls = 0;
+    s.stride = stride;
+    s.stages = stage_table(s.mbig, s.dwork, stride, &total, &ncalls);
+    g_ref.clear();
+    if (stagept) {
+      Scn::Stage st;
+      st.tick = atol(argv[3]); st.base = atol(argv[4]); st.n = 1; st.off = 0; st.p = st.q = st.hidden = 0;
+      s.stages.assign(1, st);
+      total = 1;
+    }
+    for (const Scn::Stage& st : s.stages) {
+      if (st.n > 0 && (size_t)(st.base + (st.n - 1) * stride) >= s.cap) { fprintf(stderr, "stage table exceeds the capacity\n"); return 2; }
+      printf("I G %ld %ld %ld %ld %zu %zu %zu\n", st.tick, st.off, st.base, st.n, st.p, st.q, st.hidden);
+    }
+    long shard = stagept ? 0 : atol(argv[3]), nshards = stagept ? 1 : atol(argv[4]);
+    long lo2 = total * shard / nshards, hi2 = total * (shard + 1) / nshards;
+    printf("I S %ld %ld %ld %ld\n", total, lo2, hi2, ncalls);
+    if (hi2 > lo2) rc = vgx_run(kStagedBase + lo2, kStagedBase + hi2, 1, batch, point, &s);
+  }
+  return rc;
 }
